@@ -5,7 +5,7 @@ import vlib
 MUL = {"op": "allocmul", "l": 2, "r": 3}
 
 
-def bases(seed):
+def bases(seed, rows=300):
     out = []
     # A: two referenced commitments, an unreferenced third, a multiplication over them, application data before and during construction
     out.append({"id": "A", "gates": 1, "p": {"label": "verif", "pre": [["app-ctx", [1, 2, 3]]], "cap": 1, "cbs": [], "ops": [
@@ -41,6 +41,9 @@ def bases(seed):
         {"op": "commit", "v": 2, "vb": 3}, {"op": "commit", "v": 5, "vb": 1},
         {"op": "mul", "l": [["V", 0, 1]], "r": [["V", 1, 1]]}, {"op": "defer", "cb": 0},
         {"op": "con", "lc": [["O", 0, 1], ["V", 0, 1]], "fix": 1}, {"op": "commit", "v": 7, "vb": 4}]}})
+    # H: a large statement (rows public rows a_j * x + y + c_j = 0 over two committed values): every single row deviates in turn
+    from checks.C02 import big_statement
+    out.append({"id": "H", "gates": 1, "big": True, "p": {"label": "verif", "pre": [], "cap": 1, "cbs": [], "ops": big_statement(rows) + [{"op": "commit", "v": 7, "vb": 4}]}})
     for b in out:
         b["seed"] = seed + ord(b["id"])
     return out
@@ -53,6 +56,15 @@ def deviations(b):
 
     def side():
         return copy.deepcopy(p)
+
+    if b.get("big"):
+        # the large statement: the constant of every row, and the coefficient of x in every fourth row, changed by one
+        for i, o in enumerate(p["ops"]):
+            if o["op"] == "con":
+                v = side(); v["ops"][i]["lc"] = o["lc"] + [["1", 0, 1]]; devs.append(("ops-constant-%d" % i, v, "reject"))
+                if i % 4 == 3:
+                    v = side(); v["ops"][i]["lc"][0][2] = o["lc"][0][2] + 1; devs.append(("ops-coefficient-%d-0" % i, v, "reject"))
+        return devs
 
     v = side(); v["label"] = "verif2"; devs.append(("label", v, "reject"))
     v = side(); v["pre"] = v["pre"] + [["extra", [1]]]; devs.append(("pre-extra", v, "reject"))
@@ -118,7 +130,7 @@ def run(chk):
     # RejectsInvalid, MegaIdentity), with non-vacuity probes
     vlib.protocol_mc(chk)
     progs = []
-    for b in bases(chk.seed):
+    for b in bases(chk.seed, 300 if q else 1100):
         # (that the undeviated statement is accepted is completeness, C01's business: here it is only counted - the property speaks of a
         #  proof that is accepted for one statement)
         progs.append({"id": "bind-%s-honest" % b["id"], "p": b["p"], "seed": b["seed"], "expect_p": "", "expect_v": "", "honest_base": True})
@@ -136,7 +148,7 @@ def run(chk):
     # (B3) toy31723: TLC rebuilds both statements from the recorded calls; an accepted unaltered proof requires equal transcripts, the
     # verifier's constraints satisfied by the prover's assignment and agreeing bases (StatementBinding), and the code's verdict must be the
     # specification's exact verdict for the deviated statement (including the zero-gate value-base carve-out)
-    tp = [dict(p, expect_v="", expect_p="") for p in progs]
+    tp = [dict(p, expect_v="", expect_p="") for p in progs if not p["id"].startswith("bind-H-")]      # (the large statement: 256-bit curves only)
     byid = {p["id"]: p for p in tp}
     trace, sums = vlib.record(chk, "toy31723", tp, "bind31723")
     for cfgname, fl in (("TraceStatementBinding", vlib.flags()),):
@@ -159,12 +171,12 @@ def run(chk):
     for p in progs:
         chk.count_case(["toy31723", p["id"]])
     chk.finish(
-        rule="seven base statements (one- and two-phase, zero to five gates, committed-only and constant-only constraints, application data before and "
+        rule="a large statement (300 / 1100 rows over two committed values: the constant of every single row and the coefficient in every fourth row changed in turn) and seven base statements (one- and two-phase, zero to five gates, committed-only and constant-only constraints, application data before and "
              "during construction in both phases) x every single verifier-side deviation - transcript label; application data added, missing, changed, "
              "relabelled (before construction, in phase 1, inside a callback); each commitment's value or blinding changed; extra, missing, reordered "
              "commitment; each coefficient over a committed value and each constant changed; blinding base; value base - replayed on secq256k1, zorro, "
              "curve25519 (must be rejected; the value base only when a gate exists) and on toy31723, where TLC checks StatementBinding on the recorded "
-             "calls of both roles. distinct = (curve, base, deviation): %d deviations" % (len(progs) - 5),
+             "calls of both roles. distinct = (curve, base, deviation): %d deviations" % sum(1 for p_ in progs if not p_.get("honest_base")),
         assumptions=["deviations are single; the verifier is built consistently with its own commitment list",
                      "toy31723: an acceptance of a deviating statement counts only if it repeats under two fresh seeds"])
 
